@@ -42,6 +42,11 @@ func logicalState(v *world.Node, w *world.World, boardStart int) string {
 		var l []string
 		for id, o := range ops {
 			h := sha256.Sum256(o.Payload)
+			if string(o.Type) == "reinit_dkg" {
+				// its payload (and the id derived from it) carries run-dependent values: masked
+				l = append(l, fmt.Sprintf("reinit_dkg/%s/%s", trunc(o.DKGIdentifier, 6), o.Event))
+				continue
+			}
 			l = append(l, fmt.Sprintf("%s/%s/%s/%s/%s", id[:8], o.Type, trunc(o.DKGIdentifier, 6), hex.EncodeToString(h[:4]), o.Event))
 		}
 		sort.Strings(l)
@@ -135,7 +140,7 @@ func (s *c14Scenario) serial(first int) (string, [2]int) {
 func checkC14(c *Ctx) {
 	c.Rule = "controlled two-activity scheduler: one API request and one poll step (1-3 board messages) run in goroutines on the same real node service; every State/Storage call first asks for the baton. All schedules with at most 2 (quick) / 3 (thorough) pre-emptions are enumerated per (request kind, message kind) scenario, each replayed from a snapshot; the final logical state (operation pool, tombstones, round projections, signature stores, offset, messages posted; ids/times masked) must equal the final state of one of the two serial orders. Thorough adds a free-running soak of the same pairs on real LevelDB with the real Poll() under the Go race detector. distinct = distinct executed interleavings (grant traces)"
 	c.Assumptions = []string{"MemState (one lock per call, like LevelDBState.Get/Set) for the enumerated schedules; LevelDBState itself only in the race soak", "scheduling granularity = State/Storage interface calls"}
-	builders := []func(seed uint64) (*c14Scenario, error){scnSubmitVsProposal, scnApproveVsOtherRound, scnReinitFinishVsOtherRound, scnResetVsPoll, scnSaveOffsetVsPoll, scnSubmitVsSameRound, scnSubmitVsSignatures, scnReinitFinishVsSameRoundProposal}
+	builders := []func(seed uint64) (*c14Scenario, error){scnSubmitVsProposal, scnApproveVsOtherRound, scnReinitFinishVsOtherRound, scnResetVsPoll, scnSaveOffsetVsPoll, scnSubmitVsSameRound, scnSubmitVsSignatures, scnReinitFinishVsSameRoundProposal, scnReinitFinishVsOtherReinit}
 	maxPre := c.Pick(2, 3)
 	Parallel(len(builders), 8, func(bi int) {
 		s, err := builders[bi](c.Seed*1000 + uint64(bi))
@@ -148,7 +153,7 @@ func checkC14(c *Ctx) {
 		ser1, _ := s.serial(1)
 		// serial runs must be deterministic, otherwise the comparison is meaningless
 		if again, _ := s.serial(0); again != ser0 {
-			c.Inconclusive("scenario %s: serial execution is not deterministic under the projection", s.Name)
+			c.Inconclusive("scenario %s: serial execution is not deterministic under the projection: %s", s.Name, oracle.FirstDiff(ser0, again))
 			return
 		}
 		seen := map[string]bool{}
@@ -391,6 +396,43 @@ func scnReinitFinishVsSameRoundProposal(seed uint64) (*c14Scenario, error) {
 		return nil, fmt.Errorf("peer cannot propose: %w", err)
 	}
 	s.Name = "finish-reinit||poll-signing-proposal-of-same-round"
+	s.Snap = s.V.Mem.Snapshot()
+	s.Board = w.Board.Len()
+	return s, nil
+}
+
+// finish the reinitialisation of round S while the poller applies the reinit_dkg message of ANOTHER
+// round R (whose embedded log it replays, rewriting the round map once per replayed message)
+func scnReinitFinishVsOtherReinit(seed uint64) (*c14Scenario, error) {
+	s, err := scnReinitFinishVsOtherRound(seed)
+	if err != nil {
+		return nil, err
+	}
+	w := s.W
+	w.Board.Truncate(s.Board - 1) // drop the other round's opening proposal
+	old2, err := baseWorld(seed+1000, 2, 2)
+	if err != nil {
+		s.Closer()
+		return nil, err
+	}
+	prev := s.Closer
+	s.Closer = func() { old2.Close(); prev() }
+	keys := map[string][]byte{}
+	for _, n := range w.Nodes {
+		keys[n.Name] = n.KeyPair.Pub
+	}
+	msgs, _ := old2.W.Board.GetMessages(0)
+	re, err := types.GenerateReDKGMessage(msgs, keys)
+	if err != nil {
+		s.Closer()
+		return nil, err
+	}
+	bz, _ := json.Marshal(re)
+	if err := w.Nodes[0].Svc.ReInitDKG(&dto.ReInitDKGDTO{ID: re.DKGID, Payload: bz}); err != nil {
+		s.Closer()
+		return nil, err
+	}
+	s.Name = "finish-reinit||poll-reinit-message-of-another-round"
 	s.Snap = s.V.Mem.Snapshot()
 	s.Board = w.Board.Len()
 	return s, nil
